@@ -87,11 +87,11 @@ func TestMakeSeeds(t *testing.T) {
 			Bytes: txgen.ERC20Lock(A, A.Addr, txgen.RawEth(E, 7, &token, big.NewInt(0), nil), fee, "kf5").Bytes}},
 		{"kf-erc20-lock-receiver-not-lock-contract.json", Input{Kind: "ERC20_LOCK", Tier: "eth", Tags: []string{"eth-wrong-receiver"},
 			Bytes: txgen.ERC20Lock(A, A.Addr, txgen.RawEth(E, 7, &token, big.NewInt(0), transfer(other)), fee, "kf6").Bytes}},
-		{"kf-olvm-chainid-null.json", Input{Kind: "OLVM", Tier: "olvm", Tags: []string{"chainID=null"},
+		{"fixed-olvm-chainid-null.json", Input{Kind: "OLVM", Tier: "olvm", Tags: []string{"chainID=null"},
 			Bytes: editMsg(t, plainOlvm.Bytes, "chainID", nil)}},
 		{"kf-olvm-basefee.json", Input{Kind: "OLVM", Tier: "olvm", Tags: []string{"olvm-create:basefee"},
 			Bytes: txgen.OLVM(E, txgen.OLVMArgs{ChainID: f.W.P.ChainID, Nonce: f.W.OlvmNext[E.Name], Data: ethcmn.FromHex("0x4860005260206000f3"), Fee: olvmFee}).Bytes}},
-		{"kf-olvm-signature-size.json", Input{Kind: "OLVM", Tier: "olvm", Tags: []string{"signature-nil"}, Bytes: noSigBytes}},
+		{"fixed-olvm-signature-size.json", Input{Kind: "OLVM", Tier: "olvm", Tags: []string{"signature-nil"}, Bytes: noSigBytes}},
 		{"kf-proposal-create-funding-goal-nil.json", Input{Kind: "PROPOSAL_CREATE", Tier: "field", Tags: []string{"fundingGoal=str-null"},
 			Bytes: editMsg(t, prop.Bytes, "fundingGoal", nil, A)}},
 		{"kf-bid-create-unknown-asset-type.json", Input{Kind: "BID_CREATE", Tier: "bid", Tags: []string{"assetType=int-small"},
